@@ -175,6 +175,7 @@ inductive Out where
   | flag (b : Bool)
   | names (l : List Nat)
   | trk (s : Option FileTrk)
+  | trks (l : List (Nat × Option FileTrk))   -- per WAL file of the directory: name, tracker tuple
   deriving Repr, DecidableEq
 
 def wrap16 (n : Nat) : Nat := n % 65536
